@@ -503,3 +503,232 @@ Create HintDb errstate_mat.
 #[global] Hint Unfold to_internal3d_t00 to_internal3d_t01 to_internal3d_t02 to_internal3d_t03 to_internal3d_t04 to_internal3d_t05 to_internal3d_t06 to_internal3d_t07 to_internal3d_t08 to_internal3d_t10 to_internal3d_t11 to_internal3d_t12 to_internal3d_t13 to_internal3d_t14 to_internal3d_t15 to_internal3d_t16 to_internal3d_t17 to_internal3d_t18 to_internal3d_t20 to_internal3d_t21 to_internal3d_t22 to_internal3d_t23 to_internal3d_t24 to_internal3d_t25 to_internal3d_t26 to_internal3d_t27 to_internal3d_t28 to_internal3d_t30 to_internal3d_t31 to_internal3d_t32 to_internal3d_t33 to_internal3d_t34 to_internal3d_t35 to_internal3d_t36 to_internal3d_t37 to_internal3d_t38 to_internal3d_t40 to_internal3d_t41 to_internal3d_t42 to_internal3d_t43 to_internal3d_t44 to_internal3d_t45 to_internal3d_t46 to_internal3d_t47 to_internal3d_t48 to_internal3d_t50 to_internal3d_t51 to_internal3d_t52 to_internal3d_t53 to_internal3d_t54 to_internal3d_t55 to_internal3d_t56 to_internal3d_t57 to_internal3d_t58 to_internal3d_t60 to_internal3d_t61 to_internal3d_t62 to_internal3d_t63 to_internal3d_t64 to_internal3d_t65 to_internal3d_t66 to_internal3d_t67 to_internal3d_t68 to_internal3d_t70 to_internal3d_t71 to_internal3d_t72 to_internal3d_t73 to_internal3d_t74 to_internal3d_t75 to_internal3d_t76 to_internal3d_t77 to_internal3d_t78 to_internal3d_t80 to_internal3d_t81 to_internal3d_t82 to_internal3d_t83 to_internal3d_t84 to_internal3d_t85 to_internal3d_t86 to_internal3d_t87 to_internal3d_t88 : errstate_mat.
 
 #[global] Hint Unfold to_internal2d_t00 to_internal2d_t01 to_internal2d_t02 to_internal2d_t03 to_internal2d_t04 to_internal2d_t05 to_internal2d_t06 to_internal2d_t07 to_internal2d_t08 to_internal2d_t10 to_internal2d_t11 to_internal2d_t12 to_internal2d_t13 to_internal2d_t14 to_internal2d_t15 to_internal2d_t16 to_internal2d_t17 to_internal2d_t18 to_internal2d_t20 to_internal2d_t21 to_internal2d_t22 to_internal2d_t23 to_internal2d_t24 to_internal2d_t25 to_internal2d_t26 to_internal2d_t27 to_internal2d_t28 to_internal2d_t30 to_internal2d_t31 to_internal2d_t32 to_internal2d_t33 to_internal2d_t34 to_internal2d_t35 to_internal2d_t36 to_internal2d_t37 to_internal2d_t38 to_internal2d_t40 to_internal2d_t41 to_internal2d_t42 to_internal2d_t43 to_internal2d_t44 to_internal2d_t45 to_internal2d_t46 to_internal2d_t47 to_internal2d_t48 to_internal2d_t50 to_internal2d_t51 to_internal2d_t52 to_internal2d_t53 to_internal2d_t54 to_internal2d_t55 to_internal2d_t56 to_internal2d_t57 to_internal2d_t58 to_internal2d_t60 to_internal2d_t61 to_internal2d_t62 to_internal2d_t63 to_internal2d_t64 to_internal2d_t65 to_internal2d_t66 to_internal2d_t67 to_internal2d_t68 : errstate_mat.
+
+(** ** B.1  generic facts about the little matrix product *)
+
+Lemma sumN_ext n f g : (forall k, (k < n)%nat -> f k = g k) -> sumN n f = sumN n g.
+Proof.
+  induction n as [|n IH]; intro H; simpl; [reflexivity|].
+  rewrite IH by (intros k Hk; apply H; lia). rewrite (H n) by lia. reflexivity.
+Qed.
+
+Lemma sumN_plus n f g : sumN n (fun k => f k + g k) = sumN n f + sumN n g.
+Proof. induction n as [|n IH]; simpl; [ring|]. rewrite IH. ring. Qed.
+
+Lemma sumN_scal_l n c f : sumN n (fun k => c * f k) = c * sumN n f.
+Proof. induction n as [|n IH]; simpl; [ring|]. rewrite IH. ring. Qed.
+
+Lemma sumN_scal_r n c f : sumN n (fun k => f k * c) = sumN n f * c.
+Proof. induction n as [|n IH]; simpl; [ring|]. rewrite IH. ring. Qed.
+
+Lemma sumN_zero n : sumN n (fun _ => 0) = 0.
+Proof. induction n as [|n IH]; simpl; [reflexivity|]. rewrite IH. ring. Qed.
+
+Lemma sumN_swap n m (f : nat -> nat -> R) :
+  sumN n (fun k => sumN m (fun l => f k l)) = sumN m (fun l => sumN n (fun k => f k l)).
+Proof.
+  induction n as [|n IH]; simpl.
+  - symmetry. apply sumN_zero.
+  - rewrite IH. symmetry. apply sumN_plus.
+Qed.
+
+Lemma mmul_assoc n A B C i j : mmul n (mmul n A B) C i j = mmul n A (mmul n B C) i j.
+Proof.
+  unfold mmul.
+  rewrite (sumN_ext n _ (fun k => sumN n (fun l => A i l * B l k * C k j)))
+    by (intros k _; symmetry; apply sumN_scal_r).
+  rewrite sumN_swap. apply sumN_ext. intros l _.
+  rewrite <- sumN_scal_l. apply sumN_ext. intros k _. ring.
+Qed.
+
+Lemma mmul_ext n A A' B B' i j :
+  (forall k, (k < n)%nat -> A i k = A' i k) -> (forall k, (k < n)%nat -> B k j = B' k j) ->
+  mmul n A B i j = mmul n A' B' i j.
+Proof.
+  intros HA HB. unfold mmul. apply sumN_ext. intros k Hk. rewrite HA, HB by exact Hk. reflexivity.
+Qed.
+
+Lemma sumN_delta n i (f : nat -> R) : (i < n)%nat ->
+  sumN n (fun k => (if Nat.eqb i k then 1 else 0) * f k) = f i.
+Proof.
+  induction n as [|n IH]; intro Hi; [lia|]. simpl.
+  destruct (Nat.eq_dec i n) as [E|E].
+  - subst i. rewrite Nat.eqb_refl.
+    rewrite (sumN_ext n _ (fun _ => 0)).
+    + rewrite sumN_zero. ring.
+    + intros k Hk. replace (Nat.eqb n k) with false; [ring|].
+      symmetry. apply Nat.eqb_neq. lia.
+  - replace (Nat.eqb i n) with false by (symmetry; apply Nat.eqb_neq; exact E).
+    rewrite IH by lia. ring.
+Qed.
+
+Lemma mmul_I_l n B i j : (i < n)%nat -> mmul n I_ B i j = B i j.
+Proof. intro Hi. unfold mmul, I_. apply (sumN_delta n i (fun k => B k j)). exact Hi. Qed.
+
+(** index case analysis: [i < 9] becomes the nine numerals *)
+Ltac idx i := repeat (destruct i as [|i]; [|try (exfalso; lia)]).
+
+(** ** B.2  the explicit inverse of the output transform *)
+
+(** (d(rph)/d(phi))^-1 up to the factor pi/180 *)
+Definition Ninv (roll pitch heading : R) (i j : nat) : R :=
+  match i, j with
+  | 0%nat, 0%nat => - cos (heading * (PI / 180)) * cos (pitch * (PI / 180))
+  | 0%nat, 1%nat => sin (heading * (PI / 180))
+  | 1%nat, 0%nat => - sin (heading * (PI / 180)) * cos (pitch * (PI / 180))
+  | 1%nat, 1%nat => - cos (heading * (PI / 180))
+  | 2%nat, 0%nat => sin (pitch * (PI / 180))
+  | 2%nat, 2%nat => -1
+  | _, _ => 0
+  end.
+
+(** T_inv = [[I 0 0] [0 I -V^x A^-1] [0 0 A^-1]] with A^-1 = Ninv * pi/180 *)
+Definition Tinv3 (lat lon alt VN VE VD roll pitch heading : R) (i j : nat) : R :=
+  let N := Ninv roll pitch heading in
+  let k := PI / 180 in
+  match i, j with
+  | 0%nat, 0%nat => 1 | 1%nat, 1%nat => 1 | 2%nat, 2%nat => 1
+  | 3%nat, 3%nat => 1 | 4%nat, 4%nat => 1 | 5%nat, 5%nat => 1
+  | 3%nat, 6%nat => (VD * N 1%nat 0%nat - VE * N 2%nat 0%nat) * k
+  | 3%nat, 7%nat => (VD * N 1%nat 1%nat - VE * N 2%nat 1%nat) * k
+  | 3%nat, 8%nat => (VD * N 1%nat 2%nat - VE * N 2%nat 2%nat) * k
+  | 4%nat, 6%nat => (VN * N 2%nat 0%nat - VD * N 0%nat 0%nat) * k
+  | 4%nat, 7%nat => (VN * N 2%nat 1%nat - VD * N 0%nat 1%nat) * k
+  | 4%nat, 8%nat => (VN * N 2%nat 2%nat - VD * N 0%nat 2%nat) * k
+  | 5%nat, 6%nat => (VE * N 0%nat 0%nat - VN * N 1%nat 0%nat) * k
+  | 5%nat, 7%nat => (VE * N 0%nat 1%nat - VN * N 1%nat 1%nat) * k
+  | 5%nat, 8%nat => (VE * N 0%nat 2%nat - VN * N 1%nat 2%nat) * k
+  | 6%nat, 6%nat => N 0%nat 0%nat * k | 6%nat, 7%nat => N 0%nat 1%nat * k | 6%nat, 8%nat => N 0%nat 2%nat * k
+  | 7%nat, 6%nat => N 1%nat 0%nat * k | 7%nat, 7%nat => N 1%nat 1%nat * k | 7%nat, 8%nat => N 1%nat 2%nat * k
+  | 8%nat, 6%nat => N 2%nat 0%nat * k | 8%nat, 7%nat => N 2%nat 1%nat * k | 8%nat, 8%nat => N 2%nat 2%nat * k
+  | _, _ => 0
+  end.
+
+Ltac mat_entry :=
+  cbv [mmul mvec sumN Tinv3 Ninv Tout3 Tout2 T32 T23 TintArg3 TintArg2 I_ Nat.eqb];
+  autounfold with errstate_mat;
+  autounfold with to_output3d_db to_output2d_db to_internal3d_arg_db to_internal2d_arg_db.
+
+Lemma to_output_invertible lat lon alt VN VE VD roll pitch heading :
+  cos (pitch * (PI / 180)) <> 0 ->
+  meq 9 9 (mmul 9 (Tinv3 lat lon alt VN VE VD roll pitch heading)
+                  (Tout3 lat lon alt VN VE VD roll pitch heading)) I_ /\
+  meq 9 9 (mmul 9 (Tout3 lat lon alt VN VE VD roll pitch heading)
+                  (Tinv3 lat lon alt VN VE VD roll pitch heading)) I_.
+Proof.
+  intro Hc. pose proof PI_neq0 as Hpi.
+  assert (Hh : sin (heading * (PI / 180)) * sin (heading * (PI / 180)) =
+               1 - cos (heading * (PI / 180)) * cos (heading * (PI / 180)))
+    by (pose proof (sc1 (heading * (PI / 180))); lra).
+  assert (Hp : sin (pitch * (PI / 180)) * sin (pitch * (PI / 180)) =
+               1 - cos (pitch * (PI / 180)) * cos (pitch * (PI / 180)))
+    by (pose proof (sc1 (pitch * (PI / 180))); lra).
+  split; intros i j Hi Hj; idx i; idx j; mat_entry;
+    first [ ring | field_simplify_eq; [ring [Hh Hp] | try split; assumption] ].
+Qed.
+
+Lemma sumN_delta_r n j (f : nat -> R) : (j < n)%nat ->
+  sumN n (fun k => f k * (if Nat.eqb k j then 1 else 0)) = f j.
+Proof.
+  intro Hj. rewrite <- (sumN_delta n j f Hj). apply sumN_ext. intros k _.
+  rewrite (Nat.eqb_sym k j). ring.
+Qed.
+
+Lemma mmul_I_r n A i j : (j < n)%nat -> mmul n A I_ i j = A i j.
+Proof. intro Hj. unfold mmul, I_. apply (sumN_delta_r n j (fun k => A i k)). exact Hj. Qed.
+
+(** ** B.3  the 2D (no-altitude) transforms *)
+
+(** transform_to_output in 2D is the 3D matrix times _transform_3d_2d (as the source says) *)
+Lemma out2d_is_product lat lon alt VN VE VD roll pitch heading :
+  meq 9 7 (Tout2 lat lon alt VN VE VD roll pitch heading)
+          (mmul 9 (Tout3 lat lon alt VN VE VD roll pitch heading) (T32 VN VE)).
+Proof.
+  intros i j Hi Hj; idx i; idx j; mat_entry; ring.
+Qed.
+
+(** TRANSFORM_2D_3D is a left inverse of _transform_3d_2d for every velocity *)
+Lemma t23_t32_identity VN VE : meq 7 7 (mmul 9 T23 (T32 VN VE)) I_.
+Proof.
+  intros i j Hi Hj; idx i; idx j; mat_entry; ring.
+Qed.
+
+(** what transform_to_internal hands to np.linalg.inv is the 3D output transform, in both modes *)
+Lemma internal_arg_is_output lat lon alt VN VE VD roll pitch heading :
+  meq 9 9 (TintArg3 lat lon alt VN VE VD roll pitch heading) (Tout3 lat lon alt VN VE VD roll pitch heading) /\
+  meq 9 9 (TintArg2 lat lon alt VN VE VD roll pitch heading) (Tout3 lat lon alt VN VE VD roll pitch heading).
+Proof.
+  split; intros i j Hi Hj; idx i; idx j; mat_entry; reflexivity.
+Qed.
+
+(** ... and what it returns is that inverse (3D), resp. its rows selected by TRANSFORM_2D_3D (2D) *)
+Lemma internal_of_inv (inv : mat) :
+  meq 9 9 (Tint3 inv) inv /\ meq 7 9 (Tint2 inv) (mmul 9 T23 inv).
+Proof.
+  split; intros i j Hi Hj; idx i; idx j; cbv [Tint3 Tint2 app81 mmul sumN T23];
+    autounfold with errstate_mat; try reflexivity; ring.
+Qed.
+
+(** any left inverse of the output transform is the explicit one *)
+Lemma inverse_unique (inv : mat) lat lon alt VN VE VD roll pitch heading :
+  cos (pitch * (PI / 180)) <> 0 ->
+  meq 9 9 (mmul 9 inv (Tout3 lat lon alt VN VE VD roll pitch heading)) I_ ->
+  meq 9 9 inv (Tinv3 lat lon alt VN VE VD roll pitch heading).
+Proof.
+  intros Hc Hinv i j Hi Hj.
+  destruct (to_output_invertible lat lon alt VN VE VD roll pitch heading Hc) as [_ Hr].
+  set (To := Tout3 lat lon alt VN VE VD roll pitch heading) in *.
+  set (Ti := Tinv3 lat lon alt VN VE VD roll pitch heading) in *.
+  rewrite <- (mmul_I_r 9 inv i j Hj).
+  rewrite (mmul_ext 9 inv inv I_ (mmul 9 To Ti) i j) by
+    (intros k Hk; first [symmetry; apply Hr; assumption | reflexivity]).
+  rewrite <- mmul_assoc.
+  rewrite (mmul_ext 9 (mmul 9 inv To) I_ Ti Ti i j) by
+    (intros k Hk; first [apply Hinv; assumption | reflexivity]).
+  apply mmul_I_l. exact Hi.
+Qed.
+
+(** C05: in 2D the output-to-internal transform is a LEFT inverse of internal-to-output,
+    for any primitive [inv] that inverts the 3D output transform *)
+Lemma left_inverse_2d (inv : mat) lat lon alt VN VE VD roll pitch heading :
+  meq 9 9 (mmul 9 inv (Tout3 lat lon alt VN VE VD roll pitch heading)) I_ ->
+  meq 7 7 (mmul 9 (Tint2 inv) (Tout2 lat lon alt VN VE VD roll pitch heading)) I_.
+Proof.
+  intros Hinv i j Hi Hj.
+  destruct (internal_of_inv inv) as [_ H2].
+  pose proof (out2d_is_product lat lon alt VN VE VD roll pitch heading) as Hp.
+  set (To := Tout3 lat lon alt VN VE VD roll pitch heading) in *.
+  rewrite (mmul_ext 9 (Tint2 inv) (mmul 9 T23 inv) _ (mmul 9 To (T32 VN VE)) i j) by
+    (intros k Hk; first [apply H2; [exact Hi|exact Hk] | apply Hp; [exact Hk|exact Hj]]).
+  rewrite mmul_assoc.
+  rewrite (mmul_ext 9 T23 T23 _ (T32 VN VE) i j);
+    [apply t23_t32_identity; assumption | reflexivity |].
+  intros k Hk. rewrite <- mmul_assoc.
+  rewrite (mmul_ext 9 (mmul 9 inv To) I_ (T32 VN VE) (T32 VN VE) k j) by
+    (intros l Hl; first [apply Hinv; assumption | reflexivity]).
+  apply mmul_I_l. exact Hk.
+Qed.
+
+Lemma left_inverse_3d (inv : mat) lat lon alt VN VE VD roll pitch heading :
+  meq 9 9 (mmul 9 inv (Tout3 lat lon alt VN VE VD roll pitch heading)) I_ ->
+  meq 9 9 (mmul 9 (Tint3 inv) (Tout3 lat lon alt VN VE VD roll pitch heading)) I_.
+Proof.
+  intros Hinv i j Hi Hj. destruct (internal_of_inv inv) as [H3 _].
+  rewrite (mmul_ext 9 (Tint3 inv) inv _ (Tout3 lat lon alt VN VE VD roll pitch heading) i j) by
+    (intros k Hk; first [apply H3; assumption | reflexivity]).
+  apply Hinv; assumption.
+Qed.
+
+(** C05 (d): in 2D the [down] and [VD] rows of the output transform are literally zero, and
+    correct_pva returns altitude and vertical velocity unchanged, for every pva and every x *)
+Lemma rows_2d_zero lat lon alt VN VE VD roll pitch heading :
+  (forall j, (j < 7)%nat -> Tout2 lat lon alt VN VE VD roll pitch heading 2 j = 0 /\
+                            Tout2 lat lon alt VN VE VD roll pitch heading 5 j = 0) /\
+  (forall x0 x1 x2 x3 x4 x5 x6,
+     correct2d_alt lat lon alt VN VE VD roll pitch heading x0 x1 x2 x3 x4 x5 x6 = alt /\
+     correct2d_VD lat lon alt VN VE VD roll pitch heading x0 x1 x2 x3 x4 x5 x6 = VD).
+Proof.
+  split.
+  - intros j Hj; idx j; mat_entry; split; ring.
+  - intros. split; reflexivity.
+Qed.
